@@ -19,6 +19,19 @@ CLAIMS = {
          "((*os.File).Sync / mmap Flush), the threshold counter is increased by every write, reset only after a flush and compared with "
          "BytesPerSync before returning, and the active-file field is never replaced while dirty. Exhaustive over paths and implementations; "
          "this is the whole mechanism of the property except the OS contract.", "3/C13, 2.3"),
+ "C08": ("lockset / lock-protocol analysis (path-sensitive, interprocedural summaries, fresh-vs-shared contexts) + write-once table rule",
+         "Decides the lock discipline the property's mechanism list names, on every path: each index update reachable from Put/Delete/batch flush "
+         "holds the database writer lock continuously since its log append (LK3); an index read that decides an append lies in the same writer "
+         "section (LK4); every shard container call is made under that shard's lock in a mode compatible with the writes-through-receiver summary "
+         "of all three index implementations (LK7); published positions are never modified and rotated files never leave the file map while open "
+         "(TB2). Linearizability of histories itself is not decided.", "3/C08, 2.2"),
+ "C09": ("static race / lock-protocol analysis: Eraser-style lockset on all paths (not observed ones), atomic-consistency scan, lock-order graph, batch typestate, snapshot value-flow",
+         "For every public entry point (DB, Iterator, Batch in both protocol states, the background merge goroutine, the datatype layer for pairing): "
+         "every access to an inferred mutable DB/Batch field through a shared base holds the owner lock in the needed mode (LK1); no field mixes "
+         "sync/atomic and plain access (LK2); no lock is released unheld or re-acquired while held, entry lockset = exit lockset on every path, "
+         "NewBatch/Commit preserve the protocol invariant and a committed batch performs no effect (LK5/LK8); lock order acyclic (LK6); shard "
+         "lock modes (LK7); merge flag test-and-set in one section (LK4); ListKeys/Fold/NewIterator build their result from one snapshot (VF6). "
+         "Races inside DataFile/MMap internals, all run-time panics and liveness are not decided.", "3/C09, 2.2"),
  "C16": ("path-sensitive typestate (directory lock) over Open/Close incl. closures and defers; dominance of FS mutations by the held edge",
          "On every path of Open: the lock is taken with the non-blocking TryLock, every failure return is reached unlocked, the success return "
          "locked with the lock stored in the DB, the not-held edge returns ErrDatabaseIsUsing, and no file-system mutation primitive is reachable "
